@@ -79,6 +79,10 @@ def _eval_expref_text(text, v):
     if e == 'length(@)': return ('ERR', 'invalid-type') if not isinstance(v, (str, list, dict)) or isinstance(v, bool) else len(v)
     if e == 'to_number(@)':
         return spec('to_number', [v])[1]
+    if e == 'to_number(a)':
+        x = v.get('a') if isinstance(v, dict) else None
+        r = spec('to_number', [x])[1]
+        return r if not isinstance(r, Pred) else float(x) if isinstance(x, str) else x
     if e == 'a.b': 
         x = v.get('a') if isinstance(v, dict) else None
         return x.get('b') if isinstance(x, dict) else None
